@@ -29,6 +29,8 @@ type walkInput struct {
 	API    string     `json:"api"` // Walk WalkDir FS FSsub SubDir
 	Target string     `json:"target,omitempty"`
 	Names  []string   `json:"names,omitempty"` // SubDir: names of the sub-roots (each gets the same tree)
+	// Prewalk: the FS value has been walked once before the walk that is judged
+	Prewalk bool `json:"prewalk,omitempty"`
 }
 
 func statOf(fi gofs.FileInfo) *types.Stat {
@@ -118,6 +120,16 @@ func runWalk(c *Ctx, caseNo int, in walkInput) (vt.Ev, error) {
 		if in.API == "FSsub" {
 			target = in.Target
 			expected = subset(snap, in.Target)
+		}
+		// the same FS value is walked more than once in practice (a walk, then an export; a sub-target, then the whole
+		// tree): an earlier walk must leave nothing behind.  The walk that is judged is the LAST one.
+		if in.Prewalk {
+			f.Walk(ctx, "/", func(p string, d gofs.DirEntry, err error) error {
+				if err == nil && d != nil {
+					d.Info() // stats are computed on demand: a walk that never asks for them leaves nothing to leak
+				}
+				return err
+			})
 		}
 		walkErr = f.Walk(ctx, target, func(p string, d gofs.DirEntry, err error) error {
 			if err != nil {
@@ -227,7 +239,7 @@ func Walk(c *Ctx) error {
 		}
 		t.Sort()
 		for _, api := range apis {
-			inputs = append(inputs, walkInput{Tree: t, API: api})
+			inputs = append(inputs, walkInput{Tree: t, API: api, Prewalk: (api == "FS" || api == "FSsub") && c.Rand.Intn(2) == 0})
 		}
 	}
 	n := 260
@@ -257,6 +269,11 @@ func Walk(c *Ctx) error {
 			in.Names = all[:1+c.Rand.Intn(3)]
 		}
 		inputs = append(inputs, in)
+	}
+	for i := range inputs {
+		if inputs[i].API == "FS" || inputs[i].API == "FSsub" {
+			inputs[i].Prewalk = i%2 == 0
+		}
 	}
 	c.Stats.Rule = "one case = one walk (Walk / WalkDir / FS.Walk root or sub-target / SubDirFS) of a materialised tree; non-trivial = the tree has a directory with contents and either a hard-link group or names that sort differently bytewise vs path-wise; distinct by (tree, api)"
 	for _, in := range inputs {
@@ -297,6 +314,8 @@ type filterInput struct {
 	MapKind string     `json:"mapKind"` // "" | rewrite | files | all
 	MapSeed int64      `json:"mapSeed"`
 	API     string     `json:"api"`
+	// Follow: FollowPaths of the filter; their resolution is appended to the include list (in that order)
+	Follow []string `json:"follow,omitempty"`
 }
 
 type patInfo struct {
@@ -385,7 +404,21 @@ func runFilter(c *Ctx, caseNo int, in filterInput) (vt.Ev, error) {
 		paths[i] = e.Path
 		tree[i] = vt.Ev{"p": vt.P(e.Path), "t": e.Type}
 	}
-	inc, err := hitMatrix(in.Inc, paths)
+	// follow-paths: the include list the filter works with is the caller's list followed by what the paths resolve to
+	// (FollowLinks itself is C18's subject; here its result is taken as given)
+	incEff := in.Inc
+	if len(in.Follow) > 0 {
+		bfs, err := fsutil.NewFS(root)
+		if err != nil {
+			return nil, err
+		}
+		fr, err := fsutil.FollowLinks(bfs, in.Follow)
+		if err != nil || fr == nil {
+			return nil, nil // resolves to the root / fails: not a case of this driver
+		}
+		incEff = append(append([]string{}, in.Inc...), fr...)
+	}
+	inc, err := hitMatrix(incEff, paths)
 	if err != nil {
 		return nil, nil // invalid pattern: not a case
 	}
@@ -393,7 +426,7 @@ func runFilter(c *Ctx, caseNo int, in filterInput) (vt.Ev, error) {
 	if err != nil {
 		return nil, nil
 	}
-	iv, err := incrVerdicts(in.Inc, snap)
+	iv, err := incrVerdicts(incEff, snap)
 	if err != nil {
 		return nil, nil
 	}
@@ -403,7 +436,7 @@ func runFilter(c *Ctx, caseNo int, in filterInput) (vt.Ev, error) {
 	}
 	incr := make([]bool, len(snap))
 	for i := range snap {
-		incr[i] = (len(in.Inc) == 0 || iv[i]) && !(len(in.Exc) > 0 && ev2[i])
+		incr[i] = (len(incEff) == 0 || iv[i]) && !(len(in.Exc) > 0 && ev2[i])
 	}
 	// map function: a pure function of the path, decided from a per-case table
 	mapv := make([]string, len(snap))
@@ -434,7 +467,10 @@ func runFilter(c *Ctx, caseNo int, in filterInput) (vt.Ev, error) {
 			return fsutil.MapResultKeep
 		}
 	}
-	opt := &fsutil.FilterOpt{IncludePatterns: in.Inc, ExcludePatterns: in.Exc, Map: mapFn}
+	opt := &fsutil.FilterOpt{IncludePatterns: in.Inc, ExcludePatterns: in.Exc, Map: mapFn, FollowPaths: in.Follow}
+	if len(in.Follow) == 0 {
+		opt.FollowPaths = nil
+	}
 	if len(in.Inc) == 0 {
 		opt.IncludePatterns = nil
 	}
@@ -613,6 +649,21 @@ func Filter(c *Ctx) error {
 		}
 	}
 	var inputs []filterInput
+	// include lists whose order matters (exceptions after what they carve from) combined with follow-paths
+	{
+		mkf := func(p string) model.Entry { e := newFile(c.Rand, genOpts{}); e.Path = p; return e }
+		dr := func(p string) model.Entry { return model.Entry{Path: p, Type: "dir", Perm: 0755, Mtime: uniqueMtime()} }
+		ft := model.Tree{dr("dir"), mkf("dir/akey"), mkf("dir/keep"), dr("dir/private"), mkf("dir/private/x"),
+			{Path: "l", Type: "symlink", Link: "t", Perm: 0777, Mtime: uniqueMtime()}, mkf("t"), mkf("u")}
+		ft.Sort()
+		for _, inc := range [][]string{{"dir", "!dir/akey"}, {"dir", "!dir/akey", "!dir/private"}, {"!dir/akey", "dir"}, {"dir/*", "!dir/private"}, {"u"}} {
+			for _, exc := range [][]string{nil, {"t"}, {"dir/keep"}} {
+				for _, api := range []string{"Walk", "WalkDir"} {
+					inputs = append(inputs, filterInput{Tree: ft, Inc: inc, Exc: exc, Follow: []string{"l"}, API: api})
+				}
+			}
+		}
+	}
 	for _, p := range single {
 		inputs = append(inputs, filterInput{Tree: full, Inc: []string{p}, API: "Walk"})
 		inputs = append(inputs, filterInput{Tree: full, Exc: []string{p}, API: "WalkDir"})
